@@ -65,8 +65,8 @@ const TABLE: &[(&str, &str, &[(&str, &str)])] = &[
             ("to_affine / to_curve", "M"),
             ("to_bytes / from_bytes[_unchecked] (serde.rs Compressed, TwoSpare flags)", "M"),
             ("to_uncompressed / from_uncompressed[_unchecked]", "M"),
-            ("SerdeObject raw bytes: round trip, from_raw_bytes rejects off-curve", "O"),
-            ("SerdeObject::read_raw accepts off-curve", "K"),
+            ("SerdeObject: from_raw_bytes, read_raw accept exactly the on-curve pairs / triples (regression of fix 569715f)", "M"),
+            ("SerdeObject: to_raw_bytes / write_raw round trip, from_raw_bytes_unchecked, read_raw_unchecked", "O"),
             ("from_xy / coordinates", "M"),
             ("jacobian_coordinates / new_jacobian", "M"),
             ("is_on_curve (affine, projective; arbitrary triples)", "M"),
